@@ -194,6 +194,8 @@ where
         let visited_ptr = self.visited.as_mut_ptr();
 
         for v in self.digraph.out_neighbors(u) {
+            assert!(v < self.visited.len(), "v = {v} isn't in the digraph");
+
             let visited_v = unsafe { visited_ptr.add(v) };
 
             unsafe {
